@@ -36,6 +36,40 @@ def main(tier, seed):
                 chk.violation('signature-help:move_element', 'bounded', '%s; public API: %s' % (v['why'][0][:300], crashes_sh[0][:300]), v['cex'], confirmed=True)
             else:
                 chk.inconclusive.append('move_element kernel: %s - but signature help on the labelled-call corpus answers; not reported as a violation' % v['why'][0][:300])
+        # inference side tables are total; alias expansion terminates (both replayed through hover at every offset of the rendered program)
+        kfound = []
+        res, complete = explore.explore(unifier.case_factory, (), jobs=1)
+        chk.add_run('infer_expr on `case` with 1-2 subjects and 1-3 clause patterns (counts symbolic): every pattern / expression gets a type entry', res, complete, {'subjects': '1..2', 'patterns': '1..3'},
+                    nontrivial_classes=lambda c: c == 'total')
+        kfound += [('inference-side-tables', v) for v in res.violations]
+        for n in ((1, 2) if tier == 'quick' else (1, 2, 3)):
+            res, complete = explore.explore(unifier.alias_factory, (n,), jobs=jobs if n > 2 else 1)
+            chk.add_run('make_ty_from_typeref over every alias graph of %d aliases (targets symbolic)' % n, res, complete, {'aliases': n}, nontrivial_classes=lambda c: c.startswith('expanded'))
+            kfound += [('alias-expansion', v) for v in res.violations]
+        seen_k = set()
+        for site, v in kfound:
+            prog = v['cex'].get('program')
+            key = (site, prog)
+            if prog is None or key in seen_k:
+                continue
+            seen_k.add(key)
+            r = oracle.ask('hover', json.dumps({'text': prog, 'offsets': list(range(len(prog)))}))
+            crashed = not isinstance(r, dict) or 'hover' not in r
+            if crashed:
+                chk.violation(site, 'bounded', '%s; public API: hover at every offset of %r -> %s' % (v['why'][0][:400], prog, str(r)[:200]), {'program': prog}, confirmed=True)
+                if 'died' in str(r):
+                    oracle.close(); oracle = native.Oracle(native.build('oracle-ide'))
+            else:
+                chk.inconclusive.append('%s kernel: %s -- but hover answers at every offset of %r' % (site, v['why'][0][:300], prog))
+        if not kfound:
+            for prog in ('fn f(x) { case x { a, b -> b } }\n', 'type U = U\nfn f(u: U) { u }\n', 'type A = B\ntype B = A\nfn f(u: A) { u }\n'):
+                r = oracle.ask('hover', json.dumps({'text': prog, 'offsets': list(range(len(prog)))}))
+                if isinstance(r, dict) and 'hover' in r:
+                    chk.validated += 1
+                else:
+                    chk.inconclusive.append('translator validation FAILED: the inference kernels find no problem, but hover on %r -> %s' % (prog, str(r)[:200]))
+                    if 'died' in str(r):
+                        oracle.close(); oracle = native.Oracle(native.build('oracle-ide'))
         crashes = []
         for src in CYCLIC:
             offs = [i for i in range(0, len(src), 2)]
@@ -58,12 +92,19 @@ def main(tier, seed):
         oracle.close(); unifier.W.cleanup()
     chk.assumptions += [
         'kernel claim: the fourth anchored mechanism only (the placeholder that keeps occurs-free unification finite): unify / try_unify_var / Collector::collect return without panic, unbounded recursion (call depth > 400) or an emptied table slot on every table of up to %d variables whose entries (Unknown, Int, List, Tuple, Function, Result with arbitrary, also self-referential, children) are chosen by the solver' % c09.BOUNDS[tier]['tables'],
-        'every other part of the property (all queries x all offsets x broken workspaces, side tables indexed by expression/pattern id, cross-module queries) needs the salsa database and is outside the claim',
+        'side tables: InferCtx::infer_expr on case expressions with 1-2 subjects and 1-3 clause patterns built as arena data must leave a type entry for every pattern and expression (InferenceResult indexes these maps); alias expansion: make_ty_from_typeref over every alias graph of <= 2 (thorough 3) aliases must return (call depth <= 400)',
+        'every other part of the property (all queries x all offsets x broken workspaces, cyclic imports (salsa cycle handling), cross-module queries) needs the salsa database and is outside the claim',
         'kernel findings are reported only if hover on a corpus of self-application programs crashes as well']
     chk.trusted += ['rustc MIR', 'mirsym interpreter + models', 'z3']
     return chk.finish()
 
 
 def replay(path):
+    d = json.load(open(path))
+    prog = d.get('cex', {}).get('program')
+    if prog:
+        oracle = native.Oracle(native.build('oracle-ide'))
+        print(json.dumps(oracle.ask('hover', json.dumps({'text': prog, 'offsets': list(range(len(prog)))})))[:2000])
+        return 0
     print(open(path).read())
     return 0
